@@ -85,6 +85,8 @@ def single_literals():
     L += ['""', '"a"', '"ab"', '"ñ"', '"€uro"', '"😀"', '"a ñ\t€"', '"\u00a0"', '"a\'b"']
     # concat! of string literals
     L += ['concat!("a")', 'concat!("a", "b")', 'concat!("a", "\\n", r"c\\d")', 'concat!("ñ", concat!("€", "x"))', 'concat!()', 'concat!("", "a", "")', 'concat!(r#"q"q"#, "\\u{1F600}")', 'concat!("a",)']
+    # stringify! of a single identifier (the spelling of multi-token input is not specified by rustc and not part of the property)
+    L += ['stringify!(a)', 'stringify!(ab)', 'concat!("a", stringify!(b))', 'concat!(stringify!(a), "ñ")']
     out, seen = [], set()
     for x in L:
         if x not in seen:
